@@ -11,7 +11,9 @@ looks at.  Things the grammar accepts and the visitor ignores are kept visible:
   the guarded operation is applied unconditionally),
 * `barrier`/`barrierp` inside a gate body → `BStmt.barrier` (inlined in `goplist`, no callback);
   a `barrier` as the FIRST body statement is not in the grammar (`goplist` must start with
-  `uopp` or `"barrierp"`), Lark then reads the word as an identifier → `BStmt.call "barrier"`.
+  `uopp` or `"barrierp"`), Lark's contextual lexer then reads the word as an identifier →
+  `BStmt.call "barrier"` (later rejected as an unknown gate); symmetrically `barrierp` is a
+  keyword only in first position.
 -/
 namespace BqVerif.Qasm
 
@@ -172,9 +174,12 @@ def pBody : Nat → Bool → P (List (BStmt V))
   | f + 1, first, ts =>
     let item : Option (BStmt V × List Tok) := match ts with
       | .kw "barrierp" :: r =>
-        (match pIdList (r.length + 1) r with
-         | some (_, .sym ";" :: r') => some (.barrier, r')
-         | _ => none)
+        if first then
+          (match pIdList (r.length + 1) r with
+           | some (_, .sym ";" :: r') => some (.barrier, r')
+           | _ => none)
+        else
+          (pGateRest "barrierp" r).map fun (c, r') => (.call c, r')
       | .kw "barrier" :: r =>
         if first then
           (pGateRest "barrier" r).map fun (c, r') => (.call c, r')
